@@ -731,11 +731,16 @@ def hex4(rng, i):
     return s.lower() if rng.random() < 0.3 else s
 
 
-def rand_names(rng, n, avoid=()):
+def rand_names(rng, n, avoid=(), dots=False):
+    """distinct names; member names (dots=True) may contain '.', e.g. 'Max. current': 'Parent.Child' is cut at
+    the first dot, so only the parent's name must be free of dots"""
     out, seen = [], set(avoid)
     while len(out) < n:
         s = rand_text(rng, 1, 14)
-        if s in seen or "." in s:
+        if dots and rng.random() < 0.25:
+            k = rng.randrange(1, len(s) + 1)
+            s = s[:k] + rng.choice([". ", "."]) + (s[k:] or "x")
+        if s in seen or ("." in s and not dots):
             continue
         seen.add(s)
         out.append(s)
@@ -819,7 +824,7 @@ def rand_spec(rng, size=None, types=None, suffix=None):
             if rng.random() < 0.15 and subs:
                 subs[-1] = 255
                 subs = sorted(set(subs))
-            mnames = rand_names(rng, len(subs))
+            mnames = rand_names(rng, len(subs), dots=True)
             adt = rng.choice(ALL_TYPES)
             members = []
             sec = hex4(rng, idx)
@@ -846,7 +851,7 @@ def rand_spec(rng, size=None, types=None, suffix=None):
             names = None
             if rng.random() < 0.5:
                 n = rng.choice([1, 2, 3, 5, 20])
-                names = rand_names(rng, n, avoid=["Number of entries"])
+                names = rand_names(rng, n, avoid=["Number of entries"], dots=True)
             sec = hex4(rng, idx)
             objs.append({"kind": "compact", "index": idx, "sec": sec, "namesec": sec + "Name", "n": n,
                          "ntext": rand_num(rng, n)["t"], "var": tv, "names": names,
